@@ -381,6 +381,52 @@ pub fn run(args: &Args) -> i32 {
         }
     });
     ctx.stats.merge(s);
+    // the password on options handed to add_symlink (the target is the entry's content) and add_directory
+    {
+        let mut st = Stats::default();
+        for (pi, pw) in pws.iter().enumerate() {
+            let target = "target/of-the-link-\u{e9}-0123456789-0123456789";
+            let o = FOpts { password: Some(pw.clone()), ..FOpts::m(0) };
+            let calls = vec![
+                Call::StartFile { name: "plain".into(), opts: FOpts::m(8) },
+                Call::Write(b"plain neighbour".to_vec()),
+                Call::AddSymlink { name: "link".into(), target: target.into(), opts: o.clone() },
+                Call::AddDir { name: "encdir".into(), opts: o.clone() },
+                Call::StartFile { name: "after".into(), opts: FOpts::m(0) },
+                Call::Write(b"after".to_vec()),
+                Call::Finish,
+            ];
+            let (res, bytes) = exec(&calls, &[]);
+            let what = format!("writer:add_symlink+add_directory/password-{}B", pw.len());
+            let (b2, pw2) = (bytes.clone(), pw.clone());
+            let case = move || json!({"archive": hex(&b2), "password": hex(&pw2), "idx": 1, "name": "link", "content": hex(target.as_bytes())});
+            let order = (3 << 50) + pi as u64;
+            if let Some(r) = res.iter().find(|r| !r.is_ok()) {
+                st.viol("writer/call-failed/symlink-or-directory-with-password", format!("{what}: {}", r.show()), case(), order);
+                continue;
+            }
+            st.distinct_hash(fnv(&bytes));
+            if bytes.windows(24).any(|w| w == &target.as_bytes()[..24]) {
+                st.viol("writer/plaintext-visible", format!("{what}: the link target occurs in the archive in the clear"), case(), order);
+            }
+            match zipparse::validate(&bytes, &Opts { password: Some(pw.clone()), ..Opts::strict() }) {
+                Ok(p) => {
+                    for (i, want) in [(1usize, target.as_bytes()), (2, &b""[..])] {
+                        if !p.entries[i].encrypted() {
+                            st.viol("writer/not-flagged-encrypted", format!("{what}: entry {i} written with a password has flag bit 0 clear"), case(), order);
+                        }
+                        if zipparse::content(&bytes, &p.entries[i], &Opts { password: Some(pw.clone()), ..Opts::strict() }).ok().as_deref() != Some(want) {
+                            st.viol("writer/independent-decrypt-differs", format!("{what}: the independent PKWARE cipher does not recover entry {i}"), case(), order);
+                        }
+                    }
+                }
+                Err(e) => st.viol(format!("writer/independent-judge/{}", e.clause), format!("{what}: {e}"), case(), order),
+            }
+            check_entry(&bytes, 1, "link", pw, target.as_bytes(), &what, &mut st, &case, order);
+            check_entry(&bytes, 2, "encdir/", pw, b"", &what, &mut st, &case, order);
+        }
+        ctx.stats.merge(st);
+    }
     crate::diag!("  [C15] writer side done at {:.1}s", ctx.elapsed());
 
     // CPython judge. (CPython refuses an empty password: pwd=b'' means "none", so those archives are left out.)
